@@ -373,7 +373,7 @@ def worker(specs_json, wseed, probe=False):
             if what == "size":
                 lo = max(lo, 0)
                 hi = min(hi, 40)
-            in_root = [v for v in members(true_set, lo, hi)]
+            in_root = [v for v in members(true_set, lo, hi) if -(1 << 63) <= v <= (1 << 63) - 1]   # native C range
             out_root = []
             if ext:
                 cand = members(adds, lo - 5, hi + 5) if adds else []
